@@ -565,10 +565,21 @@ def worker(f):
 
     @functools.wraps(f)
     async def wrapper(cls, connection, rest):
+        # worker answers for itself, also when it fails: a reply queued later,
+        # by whoever collects the task, could come after the reply to ABOR
         try:
             await f(cls, connection, rest)
+            return
         except asyncio.CancelledError:
             connection.response("426", "transfer aborted")
+            connection.response("226", "abort successful")
+            return
+        except errors.PathIOError:
+            connection.response("451", "file system error")
+        except ConnectionError:
+            connection.response("426", "data connection lost")
+        if get_current_task() in connection.aborted_workers:
+            # failed while it was being aborted: ABOR needs its answer too
             connection.response("226", "abort successful")
 
     return wrapper
@@ -980,6 +991,10 @@ class Server:
                         # no chance to answer itself
                         connection.response("426", "transfer aborted")
                         connection.response("226", "abort successful")
+                        # ... nor to take and close its data connection
+                        if connection.future.data_connection.done():
+                            connection.data_connection.close()
+                            del connection.data_connection
                         continue
                     try:
                         result = task.result()
